@@ -42,3 +42,62 @@ pub fn c20_page_chunks_cover_every_page_once_or_more() {
     }
     core::mem::forget(out); core::mem::forget(groups);
 }
+
+// Reduced instance (the 4-page / 2x2-hint harness above ran out of memory):
+// up to 3 pages, one hint group of two symbolic page numbers.
+#[cfg_attr(kani, kani::proof)]
+#[cfg_attr(kani, kani::unwind(5))]
+#[cfg_attr(kani, kani::stub(alloc::fmt::format, crate::kani_model::fmtm::format))]
+pub fn c20_page_chunks_small() {
+    let n = any_in(0, 3) as u32;
+    let h0 = any_in(0, 4) as u32; let h1 = any_in(0, 4) as u32;
+    let groups = vec![vec![h0, h1]];
+    let out = LazyPageTextVec::safe_page_chunks_with_remainder_pn(n, &groups);
+    vcover!("chunked");
+    let mut p = 1u32;
+    while p <= 3 {
+        let mut count = 0;
+        for c in out.iter() {
+            for q in c.iter() {
+                assert!(*q >= 1 && *q <= n);
+                if *q == p { count += 1; }
+            }
+        }
+        if p <= n { assert!(count >= 1, "a page of the document is never visited"); }
+        let hinted = (h0 == p) as u32 + (h1 == p) as u32;
+        if p <= n && hinted <= 1 { assert!(count == 1); }
+        p += 1;
+    }
+    core::mem::forget(out); core::mem::forget(groups);
+}
+
+// Medium instance: up to 4 pages, two hint groups ([h0, h1] and [h2]).
+#[cfg_attr(kani, kani::proof)]
+#[cfg_attr(kani, kani::unwind(6))]
+#[cfg_attr(kani, kani::stub(alloc::fmt::format, crate::kani_model::fmtm::format))]
+pub fn c20_page_chunks_medium() {
+    let n = any_in(0, 4) as u32;
+    let h0 = any_in(0, 5) as u32; let h1 = any_in(0, 5) as u32; let h2 = any_in(0, 5) as u32;
+    let groups = vec![vec![h0, h1], vec![h2]];
+    let out = LazyPageTextVec::safe_page_chunks_with_remainder_pn(n, &groups);
+    vcover!("chunked");
+    let mut p = 1u32;
+    while p <= 4 {
+        let mut count = 0;
+        for c in out.iter() {
+            for q in c.iter() {
+                assert!(*q >= 1 && *q <= n);
+                if *q == p { count += 1; }
+            }
+        }
+        if p <= n { assert!(count >= 1, "a page of the document is never visited"); }
+        let hinted = (h0 == p) as u32 + (h1 == p) as u32 + (h2 == p) as u32;
+        if p <= n && hinted <= 1 { assert!(count == 1); }
+        p += 1;
+    }
+    // in-range hinted pages keep their order inside their group, groups keep theirs
+    if h0 >= 1 && h0 <= n && h1 >= 1 && h1 <= n {
+        assert!(out[0].len() == 2 && out[0][0] == h0 && out[0][1] == h1);
+    }
+    core::mem::forget(out); core::mem::forget(groups);
+}
